@@ -36,6 +36,11 @@ type Opts struct {
 	SrvOpts   []server.ServerOpt
 	// VRFs, when set, replaces the default non-default instances {VRF-A, VRF-B}.
 	VRFs []string
+	// LateVRF > 0: the last non-default instance does not exist at first; it is created with
+	// Server.AddNetworkInstance immediately before the request that contains step LateVRF
+	// (0-based index into the history; after the harness's reads of all instances that follow
+	// every earlier request). Operations for it before that must fail as for an unknown instance.
+	LateVRF int
 	// RuntimeVRFs: create the VRFs with Server.AddNetworkInstance after New
 	// instead of server.WithVRFs.
 	RuntimeVRFs bool
@@ -142,6 +147,11 @@ func RunHistory(h hgen.History, o Opts) (*ev.Verdict, *l1.Trace) {
 		vrfs = o.VRFs
 	}
 	allNIs := append([]string{"DEFAULT"}, vrfs...)
+	late := ""
+	if o.LateVRF > 0 && len(vrfs) > 0 {
+		late = vrfs[len(vrfs)-1]
+		vrfs = vrfs[:len(vrfs)-1]
+	}
 	var s *drive.Srv
 	if o.RuntimeVRFs {
 		s = drive.NewSrv(h.FwdRefs, nil, o.SrvOpts...)
@@ -218,6 +228,15 @@ func RunHistory(h hgen.History, o Opts) (*ev.Verdict, *l1.Trace) {
 	i := 0
 	nreq := 0
 	for i < len(h.Steps) {
+		if late != "" && i >= o.LateVRF {
+			if err := s.S.AddNetworkInstance(late); err != nil {
+				v.Fail(P+"/add-network-instance", "before step %d: AddNetworkInstance(%q): %v", i, late, err)
+				return v, tr
+			}
+			m.NIs[late] = true
+			late = ""
+			v.Class("network-instance-created-at-runtime")
+		}
 		st := h.Steps[i]
 		if st.Op == nil {
 			i++
